@@ -303,7 +303,8 @@ UNITS += _c05_units()
 ASSUMPTIONS = ["start states are addressed by index; bounds/validity of the start state at the ghost index are arbitrary fixed values", "exceptions (missing problem definition) are outside the modelled paths"]
 TRUSTED = ["extraction rewrite tables of units/C01.py, units/C17.py", "stubs in units/C01/inputs.c, units/C17/pathgeom.c", "CBMC 6.11 DFCC + minisat"]
 NOT_COVERED = ["THE SOLVE LOOPS OF THE ~45 GEOMETRIC AND MULTILEVEL PLANNERS: that every tree/roadmap edge is admitted only after checkMotion, that the reported path starts at a start state and ends in the goal region, status/flag consistency per planner, non-solution statuses adding no path (planner bodies are not under contract)",
-               "PlannerInputStates::nextGoal (goal sampling with termination condition), ProblemDefinition::addSolutionPath flags (see C04 for the solution set), EIT*'s isValidAtResolution"]
+               "under contract besides geometric::RRT::solve (whole body): RRTConnect growTree + one solve iteration (bounded), PRM approximate solution / addMilestone, SBL path validation, setProblemDefinition/clearQuery of PRM, LazyPRM, SPARS, SPARStwo, PlannerInputStates::nextStart / nextGoal(ptc), GoalState, the solution set; every other solve() body is NOT",
+               "PlannerInputStates::nextGoal() (no termination condition), EIT*'s isValidAtResolution"]
 
 MISC_CPPS = ['src/ompl/base/src/Planner.cpp', 'src/ompl/base/goals/src/GoalRegion.cpp', 'src/ompl/geometric/src/PathGeometric.cpp']
 NATIVE = [
